@@ -6,4 +6,5 @@ import NbioVerif.Properties.C20
 #print axioms Alloc.c20_disjoint
 #print axioms Alloc.c20_frame
 #print axioms Alloc.c20_no_panic
+#print axioms Alloc.c20_accepts
 #print axioms Alloc.c20_aligned_foreign_cap_counterexample
